@@ -13,7 +13,6 @@ import (
 	"ssvharness/internal/common"
 
 	"github.com/database64128/shadowsocks-go/conn"
-	"github.com/database64128/shadowsocks-go/socks5"
 	"github.com/database64128/shadowsocks-go/zerocopy"
 )
 
@@ -261,8 +260,7 @@ func (s *script) serverUnpack(w *world, b []byte, from netip.AddrPort, ps, pl in
 				w.sPacker, e = w.sUnpacker.NewPacker()
 			}
 		case w.p.name == "ss":
-			var dc socks5.DomainCache
-			a, r.ps, r.pl, e = w.assembledServerUnpack(b, ps, pl, &dc)
+			a, r.ps, r.pl, e = w.assembledServerUnpack(b, ps, pl, &w.dc) // one DomainCache per unpacker, as in the real one
 		default:
 			a, r.ps, r.pl, e = w.sUnpacker.UnpackInPlace(b, from, ps, pl)
 		}
